@@ -54,10 +54,10 @@ def encode_fixed(data_offset, columns, values, heap_base, heap, fill=0):
     return bytes(fixed)
 
 
-def build_exd(data_offset, columns, rows, subrow_sheet=False, version=2, junk=b"", pad_rows=True):
+def build_exd(data_offset, columns, rows, subrow_sheet=False, version=2, junk=b"", pad_rows=True, index_order=None):
     """rows: [(row_id, [subrow values...])] where each subrow = list of cell values (sub-row ids are 0..n-1,
     or given as (sub_id, values)). Returns bytes."""
-    index = b""
+    index = []
     data = b""
     base = 32 + 8 * len(rows)
     for rid, subs in rows:
@@ -82,8 +82,10 @@ def build_exd(data_offset, columns, rows, subrow_sheet=False, version=2, junk=b"
         if pad_rows:
             while (len(body) + 6) % 4:
                 body += b"\0"
-        index += struct.pack(">II", rid, base + len(data))
+        index.append(struct.pack(">II", rid, base + len(data)))
         data += struct.pack(">IH", len(body), count) + body
+    # the row index need not list the rows in the order their data is stored, nor in ascending id order
+    index = b"".join(index[i] for i in (index_order if index_order is not None else range(len(rows))))
     hdr = b"EXDF" + struct.pack(">H2xI", version, len(index)) + struct.pack(">I", len(data)) + b"\0" * 16
     assert len(hdr) == 32
     return hdr + index + data + junk
